@@ -162,6 +162,19 @@ _FRESH_CALLS = {"np.copy", "np.array", "np.zeros", "np.ones", "np.full", "np.emp
 _PURE_STATEMENT_CALLS = {"print", "warnings.warn", "warn", "logging.warning", "logging.info", "logging.debug", "isinstance", "len"}
 
 
+_UFUNCS2 = {"add", "subtract", "multiply", "divide", "true_divide", "floor_divide", "power", "mod", "remainder", "maximum", "minimum",
+            "bitwise_and", "bitwise_or", "bitwise_xor", "logical_and", "logical_or", "logical_xor", "greater", "less", "equal",
+            "not_equal", "greater_equal", "less_equal", "matmul", "dot", "fmax", "fmin", "hypot", "arctan2", "left_shift", "right_shift",
+            "clip", "take", "choose", "compress"}
+_UFUNCS1 = {"abs", "absolute", "negative", "sqrt", "square", "exp", "log", "sin", "cos", "tan", "floor", "ceil", "rint", "round",
+            "around", "sign", "invert", "logical_not", "isnan", "isfinite", "cumsum", "cumprod", "conjugate", "reciprocal", "copyto"}
+
+
+def _is_immutable(e):
+    return isinstance(e, (ast.Constant, ast.Compare, ast.JoinedStr)) or isinstance(e, ast.UnaryOp) and isinstance(e.operand, ast.Constant) \
+        or isinstance(e, ast.Attribute) and e.attr.isupper() or isinstance(e, ast.Tuple) and all(_is_immutable(x) for x in e.elts)
+
+
 def _is_fresh(e):
     """does the expression denote a new object (so that changing it in place cannot be seen from outside)"""
     if isinstance(e, (ast.BinOp, ast.UnaryOp, ast.Compare, ast.Constant, ast.List, ast.Tuple, ast.Dict, ast.Set, ast.ListComp, ast.JoinedStr, ast.BoolOp)):
@@ -307,7 +320,9 @@ def _summarize(func, mutators=None):
 
     def merge_env(test, e1, e2, base):
         merged = dict(base)
-        for n in set(e1) | set(e2):
+        a1, a2 = e1.get("__aliases__", {}), e2.get("__aliases__", {})
+        merged["__aliases__"] = {n: a1.get(n, frozenset([n])) | a2.get(n, frozenset([n])) for n in set(a1) | set(a2)}
+        for n in (set(e1) | set(e2)) - {"__aliases__"}:
             a = e1.get(n, name(n))
             b = e2.get(n, name(n))
             merged[n] = a if ast.dump(a) == ast.dump(b) else ast.IfExp(test=copy.deepcopy(test), body=a, orelse=b)
@@ -341,11 +356,80 @@ def _summarize(func, mutators=None):
                         base = base.value
                     if isinstance(base, ast.Name):
                         touched.append(base.id)
+        # the result is discarded: a call made for its effect may change any object it is handed
+        if not (cn.startswith(("_check", "_validate", "check_", "validate_")) or cn in mutators):
+            for a in c_.args:
+                base = a.value if isinstance(a, ast.Starred) else a
+                while isinstance(base, (ast.Subscript, ast.Attribute)):
+                    base = base.value
+                if isinstance(base, ast.Name) and base.id not in _MODULE_NAMES:
+                    touched.append(base.id)
         if not touched:
             return
         term = subst(c_, env)
         for n in dict.fromkeys(touched):
-            env[n] = _call("__mut__", copy.deepcopy(term), ast.Constant(n))
+            mutate(n, _call("__mut__", copy.deepcopy(term), ast.Constant(n)), env)
+
+    def group(env, n):
+        return env.get("__aliases__", {}).get(n, frozenset([n]))
+
+    def unlink(env, n):
+        al = env.get("__aliases__", {})
+        if n in al:
+            al = dict(al)
+            rest = al.pop(n) - {n}
+            for m in rest:
+                if len(rest) > 1:
+                    al[m] = rest
+                else:
+                    al.pop(m, None)
+            env["__aliases__"] = al
+
+    def link(env, names):
+        al = dict(env.get("__aliases__", {}))
+        g = frozenset(names)
+        for n in names:
+            g |= al.get(n, frozenset())
+        for n in g:
+            al[n] = g
+        env["__aliases__"] = al
+
+    def mutate(n, new, env):
+        """the object that `n` names changes: every other name of the same object sees the change"""
+        for m in group(env, n):
+            env[m] = new if m == n else copy.deepcopy(new)
+
+    _MUTATING_METHODS = {"sort", "fill", "resize", "put", "itemset", "setfield", "partition", "reverse", "append", "extend", "insert",
+                         "pop", "remove", "clear", "update", "setdefault", "popitem", "add", "discard", "setflags", "byteswap",
+                         "__iadd__", "__isub__", "__imul__", "__itruediv__", "__ifloordiv__", "__imod__", "__ipow__", "__iand__",
+                         "__ior__", "__ixor__", "__ilshift__", "__irshift__", "__imatmul__", "__setitem__", "__delitem__", "__setattr__"}
+
+    def effects_in_value(value, env):
+        """calls inside an assigned expression that change a local object in place (`_ = x.__iadd__(1)`, `y = np.add(x, 1, out=x)`)"""
+        for c_ in [n for n in ast.walk(value) if isinstance(n, ast.Call)]:
+            touched = []
+            if isinstance(c_.func, ast.Attribute) and c_.func.attr in _MUTATING_METHODS:
+                base = c_.func.value
+                while isinstance(base, (ast.Subscript, ast.Attribute)):
+                    base = base.value
+                if isinstance(base, ast.Name) and base.id not in _MODULE_NAMES:
+                    touched.append(base.id)
+            outs = [k.value for k in c_.keywords if k.arg == "out"]
+            fn = call_name(c_) or ""
+            if fn.startswith(("np.", "numpy.")) and len(c_.args) >= 3 and fn.split(".")[-1] in _UFUNCS2:
+                outs.append(c_.args[2])
+            if fn.startswith(("np.", "numpy.")) and len(c_.args) >= 2 and fn.split(".")[-1] in _UFUNCS1:
+                outs.append(c_.args[1])
+            for o in outs:
+                base = o
+                while isinstance(base, (ast.Subscript, ast.Attribute)):
+                    base = base.value
+                if isinstance(base, ast.Name):
+                    touched.append(base.id)
+            if touched:
+                term = subst(c_, env)
+                for n in dict.fromkeys(touched):
+                    mutate(n, _call("__mut__", copy.deepcopy(term), ast.Constant(n)), env)
 
     def run(block, env):
         """returns (env, ret): ret is None if the block falls off its end, RAISE if every path raises,
@@ -373,18 +457,26 @@ def _summarize(func, mutators=None):
                     targets = st.targets
                 val = subst(st.value, env)
                 for t in targets:
-                    _bind(t, val, env)
+                    _bind(t, copy.deepcopy(val) if len(targets) > 1 else val, env)
+                # names of one object: `a = b`, `a = b = f()`
+                same = [t.id for t in targets if isinstance(t, ast.Name)]
+                if isinstance(st.value, ast.Name):
+                    same.append(st.value.id)
+                if len(same) > 1 and not _is_immutable(val):
+                    link(env, same)
+                effects_in_value(st.value, env)
                 continue
             if isinstance(st, ast.AugAssign):
                 t = st.target
                 cur = subst(_load(t), env)
                 rhs = subst(st.value, env)
-                if isinstance(t, ast.Name) and not (t.id in env and _is_fresh(env[t.id])) and not _scalar_like(rhs, cur):
+                if isinstance(t, ast.Name) and not getattr(st, "_rebind", False) \
+                        and not (t.id in env and _is_fresh(env[t.id]) and len(group(env, t.id)) == 1) and not _scalar_like(rhs, cur):
                     # in place: the object that the name refers to (a parameter, a view, another name's object) changes
-                    val = _call("__inplace__", ast.BinOp(left=cur, op=st.op, right=rhs))
+                    mutate(t.id, _call("__inplace__", ast.BinOp(left=cur, op=st.op, right=rhs)), env)
                 else:
-                    val = ast.BinOp(left=cur, op=st.op, right=rhs)
-                _bind(t, val, env)
+                    _bind(t, ast.BinOp(left=cur, op=st.op, right=rhs), env)
+                effects_in_value(st.value, env)
                 continue
             if isinstance(st, ast.Expr) and isinstance(st.value, ast.Call):
                 c_ = st.value
@@ -394,10 +486,10 @@ def _summarize(func, mutators=None):
                     cur = env[c_.func.value.id]
                     arg = subst(c_.args[0], env)
                     if c_.func.attr == "append":
-                        env[c_.func.value.id] = ast.List(elts=list(cur.elts) + [arg], ctx=ast.Load())
+                        mutate(c_.func.value.id, ast.List(elts=list(cur.elts) + [arg], ctx=ast.Load()), env)
                         continue
                     if isinstance(arg, (ast.List, ast.Tuple)):
-                        env[c_.func.value.id] = ast.List(elts=list(cur.elts) + list(arg.elts), ctx=ast.Load())
+                        mutate(c_.func.value.id, ast.List(elts=list(cur.elts) + list(arg.elts), ctx=ast.Load()), env)
                         continue
                 effect_of_call(c_, env)
                 continue
@@ -471,9 +563,13 @@ def _summarize(func, mutators=None):
                 n.ctx = ast.Load()
         return t
 
-    def _bind(t, val, env):
+    def _bind(t, val, env, mutation=False):
         if isinstance(t, ast.Name):
-            env[t.id] = val
+            if mutation:
+                mutate(t.id, val, env)
+            else:
+                unlink(env, t.id)
+                env[t.id] = val
         elif isinstance(t, (ast.Tuple, ast.List)):
             if isinstance(val, (ast.Tuple, ast.List)) and len(val.elts) == len(t.elts):
                 for a, b in zip(t.elts, val.elts):
@@ -485,11 +581,11 @@ def _summarize(func, mutators=None):
             base = t.value
             cur = subst(_load(base), env)
             new = _call("__set__", cur, subst(_slice_expr(t.slice), env), val)
-            _bind(base, new, env)
+            _bind(base, new, env, True)
         elif isinstance(t, ast.Attribute):
             base = t.value
             if isinstance(base, ast.Name):
-                env[base.id] = _call("__setattr__", subst(_load(base), env), ast.Constant(t.attr), val)
+                mutate(base.id, _call("__setattr__", subst(_load(base), env), ast.Constant(t.attr), val), env)
         elif isinstance(t, ast.Starred):
             _bind(t.value, val, env)
 
@@ -497,6 +593,7 @@ def _summarize(func, mutators=None):
         return ast.Subscript(value=ast.Name(id="__idx__", ctx=ast.Load()), slice=copy.deepcopy(s), ctx=ast.Load())
 
     env, ret = run(list(func.body), {})
+    env.pop("__aliases__", None)
     sm.result = None if ret is RAISE else ret
     sm.env = env
     sm.guards = _merge_guards(sm.guards)
@@ -511,13 +608,24 @@ _FUNC_ALIASES = {"linalg.inv": "np.linalg.inv", "linalg.det": "np.linalg.det", "
                  "numpy.tile": "np.tile"}
 
 
+def _const(v):
+    """constants keep their type: 1, 1.0 and True are equal in Python but `x + 1.0` is not `x + 1` (dtype, indexing)"""
+    if isinstance(v, bool):
+        return ("const", v, "bool")
+    if isinstance(v, float):
+        return ("const", v, "float")
+    if isinstance(v, complex):
+        return ("const", v, "complex")
+    return ("const", v)
+
+
 def _neg(c):
     if isinstance(c, tuple) and c and c[0] == "neg":
         return c[1]
     if isinstance(c, tuple) and c and c[0] == "+":
         return ("+",) + tuple(sorted((_neg(t) for t in c[1:]), key=repr))
     if isinstance(c, tuple) and c and c[0] == "const" and isinstance(c[1], (int, float)) and not isinstance(c[1], bool):
-        return ("const", -c[1])
+        return _const(-c[1])
     return ("neg", c)
 
 
@@ -634,7 +742,7 @@ def _canon(e):
     if isinstance(e, ast.Name):
         return e.id
     if isinstance(e, ast.Constant):
-        return ("const", e.value if not isinstance(e.value, type(Ellipsis)) else "...")
+        return _const(e.value if not isinstance(e.value, type(Ellipsis)) else "...")
     if isinstance(e, ast.Attribute):
         d = ast.unparse(e)
         if d in _FUNC_ALIASES:
